@@ -34,6 +34,8 @@ var serverFaults = []string{
 	// the basics and the remaining Flush rules (every test of the suite has at least one faulty server it must flag)
 	"fail-ipv4-adds", "fail-nhg-adds", "reject-identical-nexthops",
 	"flush-ignores-election", "flush-defaults-to-all", "flush-always-all",
+	// one kind of entry cannot be deleted (the deletion happens, the verdict says FAILED)
+	"fail-nh-deletes", "fail-nhg-deletes", "fail-ipv4-deletes",
 }
 
 // Every designated test in which the fault manifested must fail (not just one of them): with the
@@ -116,6 +118,12 @@ func designated(fault string) func(name string) bool {
 		return has("Add next-hop-group entry that can be resolved")
 	case "reject-identical-nexthops":
 		return has("Add two NextHops with identical contents")
+	case "fail-nh-deletes":
+		return has("Delete NH entry successfully", "Idempotent Delete")
+	case "fail-nhg-deletes":
+		return has("Delete NHG entry successfully", "Delete NH entry successfully", "Idempotent Delete")
+	case "fail-ipv4-deletes":
+		return has("Delete IPv4 entry within default", "Delete NHG entry successfully", "Delete NH entry successfully", "Add-Delete-Add", "Idempotent Delete")
 	case "flush-ignores-election":
 		return has("Flush from non-elected master returns error")
 	case "flush-defaults-to-all":
@@ -233,6 +241,18 @@ func (f *faultyModify) rewriteVerdict(op *spb.AFTOperation, st spb.AFTResult_Sta
 		if okd && op.GetOp() == spb.AFTOperation_ADD && op.GetNextHopGroup() != nil {
 			return spb.AFTResult_FAILED
 		}
+	case "fail-nh-deletes":
+		if okd && isDel && op.GetNextHop() != nil {
+			return spb.AFTResult_FAILED
+		}
+	case "fail-nhg-deletes":
+		if okd && isDel && op.GetNextHopGroup() != nil {
+			return spb.AFTResult_FAILED
+		}
+	case "fail-ipv4-deletes":
+		if okd && isDel && op.GetIpv4() != nil {
+			return spb.AFTResult_FAILED
+		}
 	case "reject-identical-nexthops":
 		// a next-hop whose contents equal those of another next-hop this session has programmed is refused
 		if okd && op.GetOp() == spb.AFTOperation_ADD && op.GetNextHop() != nil {
@@ -253,7 +273,8 @@ func (f *faultyModify) rewriteVerdict(op *spb.AFTOperation, st spb.AFTResult_Sta
 
 var rewriteFaults = map[string]bool{"allow-delete-referenced": true, "ack-invalid-entries": true, "accept-replace-of-missing": true,
 	"accept-disallowed-forward-reference": true, "fail-mpls": true, "fail-ipv6": true, "fail-delete": true, "fail-cross-instance-reference": true, "fail-entries-with-metadata": true,
-	"fail-ipv4-adds": true, "fail-nhg-adds": true, "reject-identical-nexthops": true}
+	"fail-ipv4-adds": true, "fail-nhg-adds": true, "reject-identical-nexthops": true,
+	"fail-nh-deletes": true, "fail-nhg-deletes": true, "fail-ipv4-deletes": true}
 
 func supportedParams(p *spb.SessionParameters) bool {
 	return p.GetRedundancy() == spb.SessionParameters_SINGLE_PRIMARY && p.GetPersistence() == spb.SessionParameters_PRESERVE
